@@ -131,6 +131,16 @@ def matrix_cells(mock):
                     continue  # without an extension the format has to be named
                 for allow in (False, True):
                     cells.append((name, fmt, state, allow))
+    if not mock:
+        # composite savers failing midway into a place that already holds OTHER files: the target itself is absent
+        # (or an empty folder), so nothing is refused - and nothing that was there before may change or vanish
+        for fmt in ("yml", "folder", "legacy", None):
+            for state in ("absent", "empty_folder", "absent_in_nonempty_folder"):
+                if fmt in ("folder", "legacy") and state != "empty_folder":
+                    continue
+                for fault in ("data_plugin", "data_format_without_save", "save_model", "save_scheme", "write_dict"):
+                    for allow in (False, True):
+                        cells.append(("result", fmt, state, allow, fault))
     return cells
 
 
@@ -171,15 +181,37 @@ def register_mock():
             half(file_name)
 
 
+def register_failing_data_plugin():
+    from glotaran.io import DataIoInterface
+    from glotaran.plugin_system.data_io_registration import known_data_formats, register_data_io
+
+    if "vffail" in known_data_formats():
+        return
+
+    @register_data_io(["vffail"])
+    class VfFailDataIo(DataIoInterface):
+        def save_dataset(self, dataset, file_name, **kw):
+            with open(file_name, "w") as f:
+                f.write("half a fi")
+            raise RuntimeError("vf data plugin failed midway (injected)")
+
+
 def run_cell(cell, objs, funcs, root, rec, mock=False):
-    name, fmt, state, allow = cell
+    name, fmt, state, allow = cell[:4]
+    fault = cell[4] if len(cell) > 4 else None
     root = Path(root)
     if root.exists():
         shutil.rmtree(root)
     root.mkdir(parents=True)
     (root / "sibling.txt").write_bytes(b"PRECIOUS SIBLING")
     ext = fmt if fmt and fmt != "nosuchformat" else ("vfmock" if mock else ("nc" if name == "dataset" else "yml"))
-    if state in ("absent", "file", "file_noext"):
+    if state == "absent_in_nonempty_folder":
+        (root / "out" / "raw").mkdir(parents=True)
+        (root / "out" / "notes.txt").write_bytes(b"PRECIOUS NOTES")
+        (root / "out" / "raw" / "measurement.dat").write_bytes(bytes(range(256)))
+        (root / "out" / "first_fit.yml").write_bytes(b"PRECIOUS EARLIER RESULT")
+        target = root / "out" / f"second_fit.{ext}"
+    elif state in ("absent", "file", "file_noext"):
         # what exists is decided by the file system, not by the shape of the name: a file without extension is a file
         target = root / (f"target.{ext}" if state != "file_noext" else "target")
         if state != "absent":
@@ -198,6 +230,20 @@ def run_cell(cell, objs, funcs, root, rec, mock=False):
     kw = {"allow_overwrite": True} if allow else {}
     if fmt:
         kw["format_name"] = fmt
+    restore = None
+    if fault in ("data_plugin", "data_format_without_save"):
+        from glotaran.io import SavingOptions
+
+        register_failing_data_plugin()
+        kw["saving_options"] = SavingOptions(data_format="vffail" if fault == "data_plugin" else "sdt")
+    elif fault:
+        import glotaran.builtin.io.yml.yml as YML
+
+        def failing(*a, **k):
+            raise OSError(28, "No space left on device (injected)")
+
+        restore = (YML, fault, getattr(YML, fault))
+        setattr(YML, fault, failing)
     try:
         with warnings.catch_warnings(), contextlib.redirect_stdout(io.StringIO()):
             warnings.simplefilter("ignore")
@@ -207,6 +253,12 @@ def run_cell(cell, objs, funcs, root, rec, mock=False):
         out = "FileExistsError"
     except Exception as e:  # noqa
         out = f"{type(e).__name__}"
+    finally:
+        if restore:
+            setattr(*restore)
+    if fault:
+        rec.count("fault_cells")
+        rec.count(f"fault_cells:{fault}:{out}")
     after = snap(root)
     rec.count("matrix_cells")
     wrote = []
@@ -222,9 +274,9 @@ def run_cell(cell, objs, funcs, root, rec, mock=False):
         if e[0] == "os.mkdir" and rp in preexisting:
             continue  # mkdir(exist_ok=True) of an existing directory: not a write
         wrote.append((e[0], rp, e[2] if len(e) > 2 else ""))
-    ctx = {"function": f"save_{name}", "format": fmt, "target_state": state, "allow_overwrite": allow, "mock_plugin": mock, "outcome": out}
+    ctx = {"function": f"save_{name}", "format": fmt, "target_state": state, "allow_overwrite": allow, "mock_plugin": mock, "outcome": out, "fault": fault}
     refusal = state in ("file", "nonempty_folder", "file_noext", "nonempty_folder_dotted") and not allow
-    tag = f"save_{name}:{fmt if fmt in (None, 'nosuchformat', 'vfmock') else 'registered'}:{state}"
+    tag = f"save_{name}:{fmt if fmt in (None, 'nosuchformat', 'vfmock') else 'registered'}:{state}" + (f":fault={fault}" if fault else "")
     if refusal:
         rec.count("refusal_cases_judged")
         if out != "FileExistsError":
@@ -242,7 +294,11 @@ def run_cell(cell, objs, funcs, root, rec, mock=False):
         protected = [k for k in before if before[k][0] != "dir" and not (str(root / k) == str(target) or str(root / k).startswith(str(target) + os.sep))]
         for k in protected:
             if before[k] != after.get(k):
-                rec.violation(f"unrelated-file-changed:{tag}", ctx, f"{k} changed although it is not the save target")
+                rec.violation(f"unrelated-file-changed:{tag}", ctx, f"{k} changed although it is not the save target" if k in after else f"{k} vanished although it is not the save target")
+        if fault and out == "ok" and fault not in ("save_model", "save_scheme", "write_dict"):
+            pass  # a format that never saves datasets through the data plugin: nothing injected
+        if fault in ("save_model", "save_scheme", "write_dict") and fmt in ("yml", None) and out == "ok":
+            rec.violation(f"fault-not-reported:{tag}", ctx, f"injected OSError in {fault} did not surface (outcome {out})")
         if state == "nonempty_folder" and allow:
             pass
     if mock:
